@@ -18,7 +18,7 @@ IMPORTS = {
     ],
     "C02": [
         # NOT adopted: C04/K1, K6 (the calibration of tau): a key released above a too low threshold is still thresholded - C04's matter, not a plain function of protected rows
-        ("C04", ["K2", "K3", "K4", "K5", "B1", "B2"], None,
+        ("C04", ["K2", "K3", "K4", "K5", "B1", "B2", "B3"], None,
          "the grouping-key columns of a DP result are plain functions of protected rows: they may leave only through the tau-thresholding pipeline "
          "(cap, count of units, noise, strict threshold, projection) or from declared public values"),
         ("C13", ["G1", "G2", "G4"], None,
@@ -27,6 +27,16 @@ IMPORTS = {
         ("C01", ["S1"], r"@empty-branch|@linear",
          "a 'noise-adding aggregation' adds noise: the sums leave gaussian_mechanisms un-noised only when there is no aggregate, and sigma is the strictly positive multiple "
          "multiplier x bound (a sigma sanitised to 0 is an un-noised path)"),
+    ],
+    "C03": [
+        ("C04", ["K6"], None,
+         "'thresholding is recorded with at least the epsilon and delta it used': the delta a threshold really spends is fixed by its value - a tau below "
+         "1 + sigma * Phi^-1((1-delta)^(1/Cu)) spends more than the recorded delta"),
+    ],
+    "C04": [
+        ("C03", ["V3"], r"group_by",
+         "the threshold must be at least the tau required by the (epsilon, delta) SHARE reserved for key release: the budget handed to differentially_private_group_by is "
+         "the reserved share of both parameters (a tau computed from another share is calibrated for another delta)"),
     ],
     "C06": [
         # NOT adopted: C12/J2 (images checked against the co-domain).  An unchecked image is still a superset of the values; it matters to C06 only when the
@@ -52,10 +62,15 @@ IMPORTS = {
         ("C06", ["M", "P", "A", "O2", "S"], None,
          "the clipping constant is the bound of the range propagated for the aggregated expression (times the multiplicity) and the result is clamped to the "
          "propagated type: a range that misses values the expression takes clips / clamps in-range data"),
-        ("C05", ["Y7"], None, "rows whose unit id is NULL get a NULL scale factor (NULL = NULL is not true in the join with the factors) and vanish from every sum"),
+        ("C05", ["Y1", "Y1b", "Y7"], None,
+         "the DP aggregation runs over the privacy-unit-tracked input: the tracked join must keep the query's own operator and ON condition (the unit equality is conjoined, not substituted) or rows are "
+         "duplicated / lost; rows whose unit id is NULL get a NULL scale factor (NULL = NULL is not true in the join with the factors) and vanish from every sum"),
+        ("C04", ["K5"], None,
+         "'public keys left-joined so that empty groups still appear': the aggregation input is the LEFT JOIN of the grouping values with the tracked rows on equality of every key - "
+         "another condition gives every group the rows of the others"),
     ],
     "C10": [
-        ("C11", ["L3", "L5"], r"super_(union|intersection)",
+        ("C11", ["L3", "L5", "L8"], r"super_(union|intersection)",
          "the And / Or / comparison arms combine column types with super_intersection / super_union and test is_subset_of: an approximate union that loses a "
          "value (the NULL of an optional operand) loses the rows holding it"),
         ("C06", ["M", "S"], r"function::(greatest|least)\b",
@@ -66,10 +81,15 @@ IMPORTS = {
         # J4 only for pairs dispatched from Base<X, DataType> (the API-only pair DateTime -> Date is not reachable from the lattice operations)
         ("C12", ["J4"], r"@dispatched", "the cross-variant arms of is_subset_of / super_union / super_intersection convert one side with the injection: an image that misses values of the converted side loses them from the union / answers `subset` wrongly"),
     ],
+    "C15": [
+        ("C08", ["E10"], None,
+         "'looking up a name yields the entry with exactly that path if there is one': in GROUP BY a name that is exactly an input column designates that column; "
+         "the select alias of the same name is only a fallback (guarded by a failed column lookup)"),
+    ],
     "C16": [
         # NOT adopted: E10, E11, E15 decide how SQL is READ (GROUP BY alias, WHERE of the builders, split order): a mis-read query still renders and re-reads
         # to the same relation, so C16's fixpoint holds.
-        ("C08", ["E3", "E4", "E5", "E7", "E8", "E9", "E12", "E13", "E16", "E17", "E18"], None,
+        ("C08", ["E3", "E4", "E5", "E7", "E8", "E9", "E12", "E13", "E16", "E17", "E18", "E20", "E21"], None,
          "re-parsing the rendered SQL must reproduce the semantics and the output schema of the relation it came from: every operator is rendered under a spelling "
          "read back as the same operator, every node component, alias, parenthesis, CASE branch and CTE is rendered where the reader expects it"),
     ],
